@@ -16,14 +16,35 @@ SITES = ["acryo/loader/_loader.py::SubtomogramLoader.binning", "acryo/loader/_ba
 ANCHORS = SITES + ["acryo/_utils.py::bin_image"]
 
 
-class BinDomain(AffineDomain):
+class BinDomain(ArrayDomain):
+    """Affine forms plus array shapes: the loader's image is an array of symbolic shape (n0, n1, n2) and bin_image(x, b) has shape n_i // b - so a scale that is
+    derived from the image sizes (`scale * n / (n // b)`) is compared with scale * b like any other form."""
+
+    def _image(self):
+        for k in ("n0", "n1", "n2"):
+            self.integer.add(k)
+            self.positive.add(k)
+        return Arr(tuple(self.sym(k) for k in ("n0", "n1", "n2")))
+
     def seed_field(self, interp, obj, name, node):
         if name in ("scale", "_scale"):
             return self.sym("scale")
+        if name in ("image", "_image"):
+            return self._image()
         return TOP
 
     def attr(self, interp, val, name, node):
+        if isinstance(val, Obj) and name in ("image", "_image"):
+            return self._image()
         return super().attr(interp, val, name, node)
+
+    def call_repo(self, interp, funcs, bound, args, kwargs, node):
+        if {f.name for f in funcs} == {"bin_image"} and args and isinstance(args[0], Arr):
+            b = args[1] if len(args) > 1 else kwargs.get("binsize")
+            b = self.lift(b) if b is not None else None
+            if b is not None:
+                return Arr(tuple(self.floordiv(n, b) for n in args[0].shape))
+        return super().call_repo(interp, funcs, bound, args, kwargs, node)
 
 
 def translation_clause(model, rep, funcs):
